@@ -8,7 +8,7 @@ vars == <<l, ref, phase, n>>
 Init == l = 1 /\ ref = [k \in {} |-> ""] /\ phase = "idle" /\ n = 0
 IsEvent(e) == l <= Len(Rec) /\ Rec[l].e = e /\ l' = l + 1
 Reset == IsEvent("Reset") /\ phase = "idle" /\ phase' = "seq" /\ ref' = [k \in {} |-> ""] /\ n' = 0
-SeqEv == /\ IsEvent("Seq") /\ phase \in {"seq"}
+SeqEv == /\ IsEvent("Seq") /\ phase \in {"seq", "conc"}
        /\ ref' = ref @@ (<<Rec[l].fn, Rec[l].x>> :> Rec[l].hash) /\ UNCHANGED <<phase, n>>
 EndEv == /\ IsEvent("End") /\ phase \in {"seq", "conc"}
        /\ <<Rec[l].fn, Rec[l].x>> \in DOMAIN ref
